@@ -345,8 +345,9 @@ class ExtraCoords(ExtraCoordsABC):
 
         Returns a new ExtraCoords object with modified lookup tables.
         """
-        dropped_tables = set()
-        new_lookup_tables = set()
+        # Use lists, not sets, so the order of the coordinates is kept and is reproducible.
+        dropped_tables = []
+        new_lookup_tables = []
         ndims = max([lut[0] if isinstance(lut[0], Integral) else max(lut[0])
                      for lut in self._lookup_tables]) + 1
         # Determine how many dimensions will be dropped by slicing below each dimension.
@@ -369,12 +370,12 @@ class ExtraCoords(ExtraCoordsABC):
             sliced_lut = lut[lut_slice]
 
             if sliced_lut.is_scalar():
-                dropped_tables.add(sliced_lut)
+                dropped_tables.append(sliced_lut)
             else:
-                new_lookup_tables.add((new_lut_axes, sliced_lut))
+                new_lookup_tables.append((new_lut_axes, sliced_lut))
         new_extra_coords = type(self)()
-        new_extra_coords._lookup_tables = list(new_lookup_tables)
-        new_extra_coords._dropped_tables = list(dropped_tables)
+        new_extra_coords._lookup_tables = new_lookup_tables
+        new_extra_coords._dropped_tables = dropped_tables
         return new_extra_coords
 
     def _getitem_wcs(self, item):
